@@ -259,6 +259,7 @@ func (c *Compiler) getDeviations(mod string) []string {
 			devs = append(devs, d)
 		}
 	}
+	sort.Strings(devs)
 	return devs
 }
 
@@ -540,6 +541,7 @@ func (c *Compiler) getEnabledFeaturesForPrefix(name string) []string {
 				strings.TrimPrefix(featName, prefix))
 		}
 	}
+	sort.Strings(features)
 	return features
 }
 
@@ -584,8 +586,16 @@ func (c *Compiler) checkIdentities() error {
 	}
 
 	// Process derived identities, building
-	// identity tree.
-	for name, ident := range ids {
+	// identity tree.  Names are visited in sorted order so that the
+	// derived identities of a base are listed in the same order on
+	// every run.
+	names := make([]string, 0, len(ids))
+	for name := range ids {
+		names = append(names, name)
+	}
+	sort.Strings(names)
+	for _, name := range names {
+		ident := ids[name]
 		for _, base := range ident.ChildrenByType(parse.NodeBase) {
 			mod, tIdent := c.getModuleAndReference(ident.Root(), base, parse.NodeIdentity)
 			tnm := owningModuleName(mod) + ":" + tIdent.Name()
